@@ -18,7 +18,8 @@
      SESSOBS = ( ERRS frozen 0 OBS AL class OBS AL ) | ( ERRS frozen code )  (start-up failed)
      AL = (disk_layer_id history_head) of the path database, (0 0) in the hash scheme;
      after each restart the blocks between the restart head and the old head block marker
-     are re-imported; after the last session the remaining canonical blocks. *)
+     are re-imported (the cut may carry a third number: only that many of them); after the
+     last session the remaining canonical blocks. *)
 From GV Require Import Lib.Sx Chain.Tree Chain.Canonical Chain.Restart Chain.RestartPath.
 Local Open Scope N_scope.
 
@@ -86,13 +87,19 @@ Definition run_v1 (sch snaps nC nJ nS : N) (ops : list sop) (cutop : nat) (kind 
   end.
 
 (* one session of the multi-session format *)
-Definition session : Type := (list sop * N * N * list N * list N)%type.
+(* (ops, cut kind, cut block, DUR, SNAPROOT, how many of the lost blocks are re-imported) *)
+Definition session : Type := (list sop * N * N * list N * list N * N)%type.
 
 Definition dec_session (s : sx) : option session :=
   match s with
-  | SL [os; SL [kk; cb]; SL [sdur; ssr]] =>
+  | SL [os; SL (kk :: cb :: ri); SL [sdur; ssr]] =>
     match sx_list_of dec_op os, sx_N kk, sx_N cb, sx_list_of sx_N sdur, sx_list_of sx_N ssr with
-    | Some ops, Some kind, Some cblock, Some dur, Some sr => Some (ops, kind, cblock, dur, sr)
+    | Some ops, Some kind, Some cblock, Some dur, Some sr =>
+      match ri with
+      | [] => Some (ops, kind, cblock, dur, sr, 4095)
+      | [r] => match sx_N r with Some n => Some (ops, kind, cblock, dur, sr, n) | None => None end
+      | _ => None
+      end
     | _, _, _, _, _ => None
     end
   | _ => None
@@ -105,7 +112,7 @@ Fixpoint run_sessions (T : tree) (path snaps : bool) (fuel : nat) (maxn : N) (id
          (p : pst) (d : pdb) (ss : list session) : list sx * option (pst * pdb) :=
   match ss with
   | [] => ([], Some (p, d))
-  | (ops, kind, cblock, dur, sr) :: r =>
+  | (ops, kind, cblock, dur, sr, reimp) :: r =>
     let cf := mkcfg path (if snaps then hd_error sr else None) false in
     match run_session T cf fuel p d ops (cut_of kind cblock) with
     | (RErr e, errs) => ([SL [SL (map (fun e => SI (err_code e)) errs); SI (rerr_code e)]], None)
@@ -117,8 +124,9 @@ Fixpoint run_sessions (T : tree) (path snaps : bool) (fuel : nat) (maxn : N) (id
       | RErr e => ([SL [serrs; sn (frozen p1); SI (rerr_code e)]], None)
       | ROk p2 =>
         let d3 := if path then pd_reopen d2 else d2 in
-        let lost := match path_up T fuel (hd_block (kv pc)) (hd_block (kv p2)) [] with
-                    | Some l => l | None => [] end in
+        let lost := firstn (N.to_nat reimp)
+                      (match path_up T fuel (hd_block (kv pc)) (hd_block (kv p2)) [] with
+                       | Some l => l | None => [] end) in
         let '(p3, e3) := reimport T fuel p2 lost in
         let d4 := if path then pd_grow (max_avail T (kv p3)) d3 else d3 in
         let o := SL [ serrs; sn (frozen p1); SI 0; obs_of T maxn ids p2; al_of path d3;
